@@ -223,6 +223,53 @@ CHECKS = {
         note="Only the single-block DES primitive (pyDes) is shared with the "
              "library and cross-checked against openssl; not an adaptive "
              "forger."),
+    'C10': dict(
+        category='model_checking', design='2/C10',
+        technique="explicit-state BFS over real LLC objects (histories that "
+                  "fill the send queues), every reached state drained with a "
+                  "frame-size oracle",
+        text="Two real LogicalLinkControllers joined without RF; BFS over "
+             "histories of sendto/send/resolve/incoming SNL and CONNECT/recv/"
+             "busy/close operations that fill the sender's queues, for remote "
+             "MIU 128..2175 (incl. non-multiples of 4) and aggregation on/off; "
+             "every distinct state is drained and every collected frame is "
+             "measured against the remote Link MIU and the receiver's "
+             "connection MIU, and the dispatched PDU sequence is compared with "
+             "the collected one.",
+        note="Depth bound stated in the evidence (frontier not exhausted); "
+             "snapshots validated against history replay; raw access points "
+             "excluded as the statement says."),
+    'C17': dict(
+        category='model_checking', design='2/C17',
+        technique="explicit-state BFS over real LLC objects against a "
+                  "reference address-table model, from the initial and from "
+                  "prepared non-initial states",
+        text="BFS over socket/bind/listen/close/resolve/connect/accept/sendto/"
+             "recvfrom operations on two connected controllers (names, "
+             "addresses and invalid arguments from a small alphabet), started "
+             "from the initial state and from prepared states (address ranges "
+             "nearly full/full, a name whose socket was closed, a re-used "
+             "address); every transition is compared with ref/addrtable.py.",
+        note="Depth bounds in the evidence; blocking calls run in a virtual "
+             "thread while the link is pumped; named-range exhaustion errno "
+             "is compared leniently (EADDRNOTAVAIL vs EAGAIN)."),
+    'C18': dict(
+        category='model_checking', design='2/C18',
+        technique="exhaustive history enumeration (options x environments x "
+                  "callback results x terminate time; target lists) judged by "
+                  "a reference automaton",
+        text="Real ContactlessFrontend on a scripted recording device: all "
+             "target lists of length 1..3 over 9 target kinds x iterations x "
+             "an earlier successful sense/listen, each followed by exchange(); "
+             "and connect() for every option subset x environment (none, tag, "
+             "LLCP peer, reader) x callback return values (<= 2 non-default) x "
+             "the call at which terminate() turns true; callback order, "
+             "on-release exactly once per true on-connect, return value class, "
+             "promptness after terminate, field-off and stale-target rules "
+             "are judged by ref/connect_contract.py.",
+        note="Default schedule; the device and the LLCP peer are scripted; "
+             "where docstring and code disagree on something the property "
+             "does not mention both are accepted."),
 }
 
 NOT_YET = "check not built yet in this round (see DESIGN.md section 2 for the planned design)"
